@@ -94,6 +94,10 @@ def generate(rng, tier):
             if rng.random() < 0.2:
                 files.append(('m/n.pyxis', rng.choice(SNIPPETS)))
             out.append(text_case('mut%d' % i, files, rng.choice([4, 8])))
+    from . import rare
+    out += rare.vftable_cases() + rare.impl_cases() + rare.base_cases() + rare.derive_cases()
+    for i in range(n // 10):
+        out.append(rare.add_noise(rng, gen.world(rng, 'noise%d' % i, opts=gen.Opts(max_modules=2, max_items=4)), 0.4))
     return out
 
 def node_at(x, p):
